@@ -44,6 +44,10 @@ def run(ctx):
         insts = [(os.environ['VERIF_C07_INST'], int(a[0]), int(a[1]), int(a[2]), int(a[3]), int(a[4]), len(a) > 5 and a[5] == '1')]
     ctx.bounds['instances'] = [dict(zip(('name', 'senders', 'msgs', 'drainers', 'rounds', 'cas_unroll', 'spurious'), i)) for i in insts]
     ctx.parallel(run_instance_job, [i for i in insts])
+    # the public wrapper is the mailbox operation: called once, verdict unchanged
+    import C02_wrappers
+    import lifecycle as lc_
+    C02_wrappers.check_drain(ctx, lc_.load()[0])
     # loop side: the dequeued marker ends the loop with reason "Drained" (sequential, real process_message of each runtime)
     import C02_dequeue
     import C02_dequeue_replay
